@@ -304,6 +304,7 @@ def instrLen(manifest, with_contract=True):
                          "  __CPROVER_assigns(length)\n"
                          "  __CPROVER_loop_invariant(length >= minLength && length <= 8)\n"
                          "  __CPROVER_decreases(8 - length)\n  {", 1, 1)], "instrLen", manifest)
+    b = b.replace("std::max(", "VMAX(").replace("std::min(", "VMIN(")
     leftover_check(b, "instrLen")
     manifest.append({"unit": "instrLen", "loop_contract_spliced": INSTRLEN_LOOP_CONTRACT})
     return "static int instrLen(int labelOffset, int byteOffset, int minLength)" + (INSTRLEN_CONTRACT if with_contract else "\n") + b + "\n"
